@@ -2,7 +2,7 @@ SPECIFICATION Spec
 CONSTANTS
   NW = 3
   NC = 2
-  Inc = {0,1,6,12}
+  Inc = {0,1,12}
   Thr = 10
   Mode = "all"
   Contig = FALSE
